@@ -11,3 +11,16 @@ package PVM
 //@   ghost x uint64
 //@   ensures [cases spec.nat_l(x) 0..8] complete: (len(data) >= int(spec.nat_len(x)) && forall(i, 0, 9, i < int(spec.nat_len(x)) ==> data[i] == spec.nat_byte(x, uint64(i)))) ==> (result2 == ExitContinue && result0 == x && result1 == int(spec.nat_len(x)))
 //@   ensures reject: result2 != ExitContinue ==> result2 == ExitPanic && result0 == 0 && result1 == 0
+
+// ---- per-opcode semantics of the pre-decoded block engine (Gray Paper A.5), table contracts ----
+// The dispatcher is executed symbolically for every key; the handler it returns must satisfy the template.
+
+//@ table instrMetaExecForOpcode alu
+//@   props C01 C02 C03
+//@   spec pvm.smt2
+//@   key op uint8 20,51,100,102..111,131..161,190..230
+//@   requires nonnil: interp != nil && instr != nil
+//@   requires fields: instr.Opcode == op && (spec.pvm_needs_dst(op) ==> instr.Dst < 13) && (spec.pvm_needs_src0(op) ==> instr.Src[0] < 13) && (spec.pvm_needs_src1(op) ==> instr.Src[1] < 13)
+//@   ensures exit: result0 == ExitContinue && result1 == instr.PC
+//@   ensures regs: forall(i, 0, 13, interp.Registers[i] == ite(i == int(instr.Dst), spec.pvm_alu(op, old(interp.Registers[instr.Dst]), old(interp.Registers[instr.Src[0]]), old(interp.Registers[instr.Src[1]]), instr.Imm[0]), old(interp.Registers[i])))
+//@   ensures frame: frame_only(interp.Registers)
